@@ -20,7 +20,8 @@ class C08(Prop):
             'and reason), tests being TestCase / PlaceHolder / ErrorHolder; 15% of the histories are damaged (call dropped, doubled or '
             'swapped) when no TestByTestResult is in the graph; 12% of the cases are linear stacks (0-3 ExtendedToOriginalDecorator / '
             'TestResultDecorator / Tagger layers) over a TestByTestResult whose on_test callback raises for a random subset of the tests '
-            '(the harness catches the exception at the caller and carries on). thorough adds every 1- and 2-test history (6 outcomes x 3 argument forms) '
+            '(the harness catches the exception at the caller and carries on); 30% of the Taggers only remove tags (from the pool the '
+            'histories use at run level). thorough adds every 1- and 2-test history (6 outcomes x 3 argument forms) '
             'over every graph of depth <= 2 (MultiTestResult with <= 2 targets). non-trivial = at least one adapter above a leaf and at '
             'least one outcome; distinct = distinct input S-expression')
     assumptions = ['the recording results of the 2.6 / 2.7 / Twisted / extended flavours are the harness\'s own classes (after testtools.testresult.doubles); '
@@ -153,7 +154,7 @@ class C08(Prop):
             shape = ['tbt']
             for _ in range(rng.choice([0, 0, 1, 1, 2, 3])):
                 k = rng.choice(['etod', 'deco', 'tagger'])
-                shape = ['tagger', R.gen_tagset(rng, 6), [], shape] if k == 'tagger' else [k, shape]
+                shape = R.gen_tagger(rng, shape) if k == 'tagger' else [k, shape]
             hist = self.gen_hist(rng, shape, R.kinds_in(shape))
             tests = sorted({c[1] for c in hist if c[0] == 'stopTest'})
             faults = [t for t in tests if rng.random() < 0.4]
